@@ -463,6 +463,14 @@ func init() {
 				e.Log = e.Log[:0]
 				e.Log = append(e.Log, "…5200 sets in two versions…")
 				c.Obs("big_trees", 1)
+				if e.Dead {
+					return
+				}
+				// the rest of the history is planned from the state reached here (a plan made for an
+				// empty tree would not respect the planner's own preconditions after two extra versions)
+				cfg := pl.Cfg
+				pl = v1x.MakePlanFrom(c.Rng, p, &v1x.Oracle{M: e.M, R: e.R}, pl.Universe)
+				pl.Cfg = cfg
 			}
 			for _, op := range pl.Ops {
 				e.Apply(op, false)
